@@ -220,7 +220,7 @@ def np_atleast2d(interp, name, args, kw, st, node):
 
 # -- elementwise ---------------------------------------------------------------
 
-_UNARY = ["sqrt", "abs", "absolute", "exp", "log", "sin", "cos", "tan", "round", "rint", "around", "floor", "ceil", "trunc", "isnan", "isfinite", "isinf", "square", "sign", "negative", "conj", "log10", "log2", "tanh", "fabs", "spacing", "logical_not", "nan_to_num"]
+_UNARY = ["sqrt", "abs", "absolute", "exp", "log", "sin", "cos", "tan", "round", "rint", "around", "floor", "ceil", "trunc", "isnan", "isfinite", "isinf", "square", "sign", "negative", "conj", "log10", "log2", "tanh", "fabs", "spacing", "logical_not", "nan_to_num", "reciprocal"]
 
 
 def _unary(interp, name, args, kw, st, node):
@@ -242,6 +242,8 @@ def _unary(interp, name, args, kw, st, node):
         term = T("pow", x.term, const(2))
     elif base == "negative":
         term = T("neg", x.term)
+    elif base == "reciprocal":
+        term = T("div", const(1), x.term)
     else:
         term = T(base, x.term) if len(args) == 1 and not [k for k in kw if k != "out"] else T(base, x.term, *[a.term for a in args[1:]], *[T("kw", k, v.term) for k, v in sorted(kw.items()) if k != "out"])
     sh = shape(x)
